@@ -600,10 +600,6 @@ def run(ck):
                       "mode": worst["mode"], "ctx": worst["ctx"], "sql": [unhex(o["sql"]).decode() for o in worst["obs"] if "sql" in o],
                       "explanation": "wf_sel (model/TqSql.v) rejects the object tree the planners built for this query",
                       "replay": "harness traceql --cases <file with {q,mode,key,ctx,calls}>", "case": {k: worst[k] for k in ("q", "mode", "key", "ctx", "calls")}})
-    elif mism:
-        i = mism[0][0]
-        ck.violation({"property": "C11", "kind": "model/implementation disagree", "query": qtext(byid[i]), "codes": [cd for j, cd in mism if j == i],
-                      "case": {k: byid[i][k] for k in ("q", "mode", "key", "ctx", "calls")}}, no_input=True)
     # semantic oracle: the implementation's statement, evaluated over generated attribute-index contents, against the meaning of the script
     judged = [c for c in usable if c.get("dbs")]
     bad = [(i, cd) for i, cd in sem if cd in (1, 2)]
@@ -619,6 +615,11 @@ def run(ck):
                       "explanation": "model/TraceqlCase.v sem_code: eval_sel of the implementation's statement (CTE index_grouped) over these index rows vs traceql_sem",
                       "replay": "harness traceql --cases <file with case>; then evaluate with the databases above",
                       "case": {k: w[k] for k in ("q", "mode", "key", "ctx", "calls")}})
+    if mism and not viol and not bad:
+        i = mism[0][0]
+        ck.violation({"property": "C11", "kind": "model/implementation disagree; both oracles accept the implementation's statements on the generated databases",
+                      "query": qtext(byid[i]), "codes": [cd for j, cd in mism if j == i],
+                      "case": {k: byid[i][k] for k in ("q", "mode", "key", "ctx", "calls")}}, no_input=True)
     if rounded:
         fid = "float-literal-6-decimals"
         if fid in ck.known_findings():
